@@ -2185,7 +2185,7 @@ func (t *Tree) InsertIdenticalTip(n *Node, newTipName string) (newtipnode *Node,
 	if parentnode, err = n.Parent(); err != nil {
 		return
 	}
-	if parentedge.Length() == 0.0 {
+	if parentedge.Length() == 0.0 && parentnode.Nneigh() > 1 {
 		newtipnode = t.NewNode()
 		newtipnode.SetName(newTipName)
 		e1 := t.ConnectNodes(parentnode, newtipnode)
